@@ -45,8 +45,12 @@ end AMap
 structure Cfg where
   /-- derived caches keyed on the module *node* (`true`) or on the parso cache *item* (`false`) -/
   keyOnTree : Bool
-  /-- the signature cache key contains a fresh `re.Match` object (never equal to an older key) -/
+  /-- the signature cache key contains the `re.Match` object itself (compared by identity, so never
+  equal to an older key) whenever `re.match(r'.*\(', whole)` matched -/
   sigKeyFresh : Bool
+  /-- a key whose middle component is `None` (the regex did not match: the cursor is on a later line
+  than the bracket and no other `(` lies between) is cached as well -/
+  sigCachesUnmatched : Bool
   /-- `memoize_cache` is created in `InferenceState.__init__` (one per Script) -/
   memoPerScript : Bool
   /-- `Script.__init__` parses with `cache=True` (mtime-validated `load_module` before anything else) -/
@@ -80,7 +84,8 @@ structure State (L T K V : Type) where
   heap : AMap Nat T := []                           -- module node identity ↦ its present content
   derived : AMap (Nat × K) V := []                  -- `_definition_name_cache` / parent-scope cache
   memo : AMap K V := []                             -- `inference_state.memoize_cache`
-  sig : AMap (Option String × K × Nat) (Nat × V) := [] -- `_time_caches['call_signatures_validity']`
+  sig : AMap (Option String × Option Nat × Nat) (Nat × V) := [] -- `_time_caches['call_signatures_validity']`:
+                                                    -- (module_path, before_bracket, bracket position)
   cur : Option Script := none
 
 inductive Op (L K : Type)
@@ -88,8 +93,10 @@ inductive Op (L K : Type)
   | script (key : Option String) (text : L) (ptime : Option Nat)
   /-- one derived-cache lookup made by a query of the newest Script -/
   | lookup (k : K)
-  /-- `get_signatures` of the newest Script reaching `cache_signatures` -/
-  | sigq (k : K)
+  /-- `get_signatures` of the newest Script reaching `cache_signatures` for the bracket at `pos`;
+  `matched` = `re.match(r'.*\(', whole)` found something (always when the cursor is on the bracket's
+  line); `k` = what `infer(leaf before the bracket)` looks up -/
+  | sigq (pos : Nat) (matched : Bool) (k : K)
   | tick (dt : Nat)
   /-- garbage collection: weak entries of dead items disappear -/
   | gc
@@ -177,19 +184,20 @@ def lookup (st : State L T K V) (k : K) : Option V × State L T K V :=
             (some v, { st with derived := st.derived.set (g, k) v, memo := st.memo.set k v })
 
 /-- `cache_signatures` through `signature_time_cache` -/
-def sigq (st : State L T K V) (k : K) : Option V × State L T K V :=
+def sigq (st : State L T K V) (pos : Nat) (matched : Bool) (k : K) : Option V × State L T K V :=
   match st.cur with
   | none => (none, st)
   | some sc =>
     match st.heap.get? sc.obj with
     | none => (none, st)
     | some tree =>
-      let m := if cfg.sigKeyFresh then st.nextMatch else 0
+      -- `before_bracket`: a new match object, or `None`
+      let m : Option Nat := if matched then some (if cfg.sigKeyFresh then st.nextMatch else 0) else none
       let st := { st with nextMatch := st.nextMatch + 1 }
-      match sc.key with
-      | none => (some (compute tree k), st)          -- `yield None  # Don't cache!`
-      | some p =>
-        let key := (some p, k, m)
+      let nocache := sc.key.isNone || (!matched && !cfg.sigCachesUnmatched)
+      if nocache then (some (compute tree k), st)      -- `yield None  # Don't cache!`
+      else
+        let key := (sc.key, m, pos)
         let miss : Option V × State L T K V :=
           let v := compute tree k
           (some v, { st with sig := st.sig.set key (st.clock + cfg.validity, v) })
@@ -205,7 +213,7 @@ def gc (st : State L T K V) : State L T K V :=
 def step (st : State L T K V) : Op L K → State L T K V
   | .script key text ptime => script cfg parse st key text ptime
   | .lookup k => (lookup cfg compute st k).2
-  | .sigq k => (sigq cfg compute st k).2
+  | .sigq pos m k => (sigq cfg compute st pos m k).2
   | .tick dt => { st with clock := st.clock + dt }
   | .gc => gc cfg st
 
@@ -225,7 +233,7 @@ def curLines (st : State L T K V) : Option L :=
 inductive Q (K V A : Type)
   | done (a : A)
   | ask (k : K) (cont : V → Q K V A)
-  | askSig (k : K) (cont : V → Q K V A)
+  | askSig (pos : Nat) (matched : Bool) (k : K) (cont : V → Q K V A)
 
 /-- the query run against the caches of the process -/
 def runQ {A : Type} (st : State L T K V) : Q K V A → Option A × State L T K V
@@ -234,8 +242,8 @@ def runQ {A : Type} (st : State L T K V) : Q K V A → Option A × State L T K V
     match lookup cfg compute st k with
     | (some v, st') => runQ st' (cont v)
     | (none, st') => (none, st')
-  | .askSig k cont =>
-    match sigq cfg compute st k with
+  | .askSig pos m k cont =>
+    match sigq cfg compute st pos m k with
     | (some v, st') => runQ st' (cont v)
     | (none, st') => (none, st')
 
@@ -243,7 +251,13 @@ def runQ {A : Type} (st : State L T K V) : Q K V A → Option A × State L T K V
 def evalQ {A : Type} (f : K → V) : Q K V A → A
   | .done a => a
   | .ask k cont => evalQ f (cont (f k))
-  | .askSig k cont => evalQ f (cont (f k))
+  | .askSig _ _ k cont => evalQ f (cont (f k))
+
+/-- every signature lookup of the query has a cursor for which the regex matches -/
+def Q.Matched {A : Type} : Q K V A → Prop
+  | .done _ => True
+  | .ask _ cont => ∀ v, (cont v).Matched
+  | .askSig _ m _ cont => m = true ∧ ∀ v, (cont v).Matched
 
 /-- the answer of the newest Script after history `h` -/
 def answer {A : Type} (h : List (Op L K)) (q : Q K V A) : Option A :=
